@@ -72,7 +72,10 @@ func selectAncestor(nodeSet NodeSet) Result {
 	result := make([]store.Cursor, 0)
 
 	for _, i := range nodeSet {
-		result = appendAncestors(i.Parent(), result)
+		// The root node has no ancestors.
+		if i.Pos() != 0 {
+			result = appendAncestors(i.Parent(), result)
+		}
 	}
 
 	return cleanupBackwardAxis(result)
@@ -89,11 +92,13 @@ func selectAncestorOrSelf(nodeSet NodeSet) Result {
 }
 
 func appendAncestors(cursor store.Cursor, result []store.Cursor) []store.Cursor {
+	result = append(result, cursor)
+
+	// The root node is an ancestor of every other node, and the last one.
 	if cursor.Pos() == 0 {
 		return result
 	}
 
-	result = append(result, cursor)
 	return appendAncestors(cursor.Parent(), result)
 }
 
@@ -205,7 +210,10 @@ func selectParent(nodeSet NodeSet) Result {
 	result := make([]store.Cursor, 0)
 
 	for _, i := range nodeSet {
-		result = append(result, i.Parent())
+		// The root node has no parent.
+		if i.Pos() != 0 {
+			result = append(result, i.Parent())
+		}
 	}
 
 	return cleanupForwardAxis(result)
